@@ -37,7 +37,7 @@ impl Rng {
 }
 
 pub fn nudge32(x: f32, k: i32) -> f32 {
-    if x.is_nan() { return x; }
+    if x.is_nan() || k == 0 { return x; }   // k = 0 keeps the value bit for bit (in particular the sign of zero)
     let b = x.to_bits() as i32;
     let m = if b < 0 { i32::MIN.wrapping_sub(b) } else { b }; // monotone integer key
     let m2 = m.wrapping_add(k);
@@ -45,7 +45,7 @@ pub fn nudge32(x: f32, k: i32) -> f32 {
     f32::from_bits(b2 as u32)
 }
 pub fn nudge64(x: f64, k: i64) -> f64 {
-    if x.is_nan() { return x; }
+    if x.is_nan() || k == 0 { return x; }
     let b = x.to_bits() as i64;
     let m = if b < 0 { i64::MIN.wrapping_sub(b) } else { b };
     let m2 = m.wrapping_add(k);
